@@ -49,12 +49,27 @@ SO_VAL = ["$x", "#{1}", "a#{b}c", "1 + 1", "1 * 2", "1 % 2", "1 - 1", "(1 2)", "
 SO_VAL_CTX = ["a { b: %s; }", "a { b: c %s; }", "a { b: f(%s); }", "a { b: %s, d; }", "@media screen { a { b: %s; } }", "a { b: c; d: %s }"]
 
 
+# plain-CSS statements that may precede the construct in the same scope (parser state left behind by an earlier statement
+# must not change what is accepted afterwards)
+SO_PRE = ["@namespace svg url(http://x.test/svg);", "@layer a, b;", "@foo bar;", "@foo bar { x { y: z; } }", "@media screen { x { y: z; } }",
+          "@supports (a: b) { x { y: z; } }", "@font-face { font-family: f; }", "@import url(x.css);", "/* c */", "x { --v: { a: b }; }",
+          "x { y: url(a b); }", "@keyframes k { from { a: b; } }", "@page :first { margin: 1in; }"]
+
+
 def sass_only_family():
     out = list(SASS_ONLY)
     for frag, ctxs in ((SO_STMT, SO_STMT_CTX), (SO_RULE, SO_RULE_CTX), (SO_VAL, SO_VAL_CTX)):
         for f in frag:
             for c in ctxs:
                 out.append(c % f)
+    for pre in SO_PRE:
+        for f in SO_STMT:
+            out.append("%s %s" % (pre, f))
+        for f in SO_RULE:
+            out.append("%s a { %s }" % (pre, f))
+            out.append("@media screen { %s a { %s } }" % (pre, f))
+        for f in SO_VAL[:12]:
+            out.append("%s a { b: %s; }" % (pre, f))
     return out
 
 
